@@ -4,9 +4,12 @@ package main
 // server; the recorded events are validated per connection by spec/Trace_Conn.tla.
 
 import (
+	"bytes"
 	"encoding/binary"
+	"fmt"
 	"math/rand"
 	"sync"
+	"sync/atomic"
 	"time"
 )
 
@@ -67,8 +70,8 @@ func convMessage(r *rand.Rand, t *term) (int, []byte) {
 		return 0x0800, randBytes(r, 8)
 	case 10:
 		return 0x0801, randBytes(r, 36+r.Intn(100))
-	case 11:
-		return 0x1003, randBytes(r, 10)
+	case 11: // (with no query outstanding it is ordinary traffic; the attribute block is 10 bytes, other lengths do not parse)
+		return 0x1003, randBytes(r, []int{10, 10, 10, 0, 9, 11, 24}[r.Intn(7)])
 	case 12:
 		return 0x1005, randBytes(r, 16)
 	case 13:
@@ -101,11 +104,20 @@ func init() {
 		r := newRand(606)
 		var wg sync.WaitGroup
 		halfFrameConnections(l, 40)
+		if !wrap && !burstMode && !noFilter {
+			slowWriterBurst(l, 1)
+			slowWriterBurst(l, 2)
+		}
 		if !wrap && !burstMode && !noFilter && !subpkgMode {
 			wg.Add(1)
 			go func() {
 				defer wg.Done()
 				stalledTransfer(l, nil)
+			}()
+			wg.Add(1)
+			go func() {
+				defer wg.Done()
+				pausedReader(l)
 			}()
 		}
 		for c := 0; c < nconn; c++ {
@@ -133,6 +145,7 @@ func init() {
 					t.serial = 65535
 				}
 				replies := int64(0)
+				lastID, lastBody := 0, []byte(nil)
 				for i := 0; i < n; i++ {
 					if n > 1000 { // wrap run: heartbeats only, pipelined
 						t.send(t.frame(0x0002, nil))
@@ -176,7 +189,11 @@ func init() {
 							if noFilter || total == 1 {
 								body = randBytes(rr, 36+rr.Intn(30)) // each part is answered from its own bytes
 							}
-							t.send(buildFrame(hdrSpec{id: id, serial: t.nextSerial(), ver: t.ver, verbyte: 1, frag: 1, total: total, no: no, phone: t.phone, body: body}))
+							f := buildFrame(hdrSpec{id: id, serial: t.nextSerial(), ver: t.ver, verbyte: 1, frag: 1, total: total, no: no, phone: t.phone, body: body})
+							t.send(f)
+							if no > 1 && !noFilter && rr.Intn(4) == 0 { // the same part again (a retransmission): it counts once
+								t.send(f)
+							}
 						}
 						send(1)
 						for _, k := range order {
@@ -188,6 +205,22 @@ func init() {
 						continue
 					}
 					id, body := convMessage(rr, t)
+					if !burstMode && rr.Intn(10) == 0 {
+						// a terminal that does not advance its serial number: the next frame carries the serial of the previous one
+						// (each message is still answered from its own bytes)
+						t.smu.Lock()
+						t.serial = (t.serial + 65535) % 65536
+						t.smu.Unlock()
+						if rr.Intn(2) == 0 && lastID != 0 {
+							id = lastID
+							if id == 0x0801 || id == 0x0200 || id == 0x0704 {
+								body = randBytes(rr, 36+rr.Intn(40))
+							} else {
+								_, body = id, lastBody
+							}
+						}
+					}
+					lastID, lastBody = id, body
 					f := t.frame(id, body)
 					if !burstMode && rr.Intn(15) == 0 {
 						// a message whose header names another phone or uses the other header version: it is answered with its own
@@ -386,6 +419,130 @@ func init() {
 	}
 }
 
+// slowWriterBurst: the writer of one connection is busy (a write callback that takes 80 ms) while far more frames than the
+// reader's hand-over queue holds arrive in a single read - plain messages and a sub-packaged transfer that completes among
+// them. Nothing is dropped and nothing overtakes: every message is answered, in order
+func slowWriterBurst(l *live, k int) {
+	phone := []byte{0x01, 0x31, 0x00, 0x00, 0x06, byte(k)}
+	t := l.dial(phone, 0)
+	t.send(t.frame(0x0002, nil))
+	t.waitRecv(1, 3*time.Second)
+	var once atomic.Bool
+	hold := func(c int) {
+		if c == t.idx && !once.Swap(true) {
+			time.Sleep(80 * time.Millisecond)
+		}
+	}
+	l.writeHold.Store(&hold)
+	t.send(t.frame(0x0002, nil)) // its write callback parks the writer
+	time.Sleep(10 * time.Millisecond)
+	var burst []byte
+	expect := int64(2)
+	for i := 0; i < 36; i++ {
+		switch {
+		case i >= 10 && i < 22: // a transfer of 12 small parts
+			b := []byte{byte(i), byte(i + 1), byte(i + 2)}
+			if i == 10 {
+				b = make([]byte, 36)
+			}
+			burst = append(burst, buildFrame(hdrSpec{id: 0x0801, serial: t.nextSerial(), frag: 1, total: 12, no: i - 9, phone: phone, body: b})...)
+			if i == 21 {
+				expect++
+			}
+		case i%2 == 0:
+			burst = append(burst, t.frame(0x0002, nil)...)
+			expect++
+		default:
+			burst = append(burst, t.frame(0x0200, make([]byte, 28))...)
+			expect++
+		}
+	}
+	for len(burst) > 0 { // (a read takes at most 1023 bytes: a few large reads)
+		n := min(len(burst), 1000)
+		t.send(burst[:n])
+		burst = burst[n:]
+	}
+	ok := t.waitRecv(expect, 8*time.Second)
+	l.writeHold.Store(nil)
+	l.rec.log(t.idx, "D", "assert", "ok", ok, "what", "MessagesLostBehindABusyWriter")
+	time.Sleep(30 * time.Millisecond)
+	l.rec.log(t.idx, "D", "end")
+	t.close(false)
+	time.Sleep(20 * time.Millisecond)
+}
+
+// pausedReader: a terminal pipelines requests and does not read for a while (3.6 s) - the server's writer sits in Write with
+// replies pending; when the terminal reads again it finds one reply per request, in order, numbered consecutively: back-pressure
+// may delay replies, it does not lose or cut them. (20 000 frames: not recorded event by event; the replies are compared with
+// the requests as they come in, the verdict is one observation for Trace_Conn.)
+func pausedReader(l *live) {
+	phone := []byte{0x01, 0x31, 0x00, 0x00, 0x05, 0x01}
+	t := l.dialWith(phone, 0, true)
+	var progress atomic.Int64
+	l.muted.Store(t.idx, &progress)
+	n := 300000 // (6 MB of replies: more than the kernel will buffer for a peer that does not read)
+	if raceBuild {
+		n = 20000 // the instrumented build is run for its race reports, not for this verdict
+	}
+	var stream []byte
+	for i := 0; i < n; i++ {
+		stream = append(stream, buildFrame(hdrSpec{id: 0x0002, serial: i, phone: phone})...)
+	}
+	wrote := make(chan error, 1)
+	go func() {
+		_, err := t.conn.Write(stream)
+		wrote <- err
+	}()
+	// until the server stops making progress on this connection (its writer is stuck), at most 4 s
+	stalledAt := time.Duration(-1)
+	t0 := time.Now()
+	for last, since := progress.Load(), time.Now(); time.Since(t0) < 4*time.Second; time.Sleep(20 * time.Millisecond) {
+		if now := progress.Load(); now != last {
+			last, since = now, time.Now()
+		} else if time.Since(since) > 300*time.Millisecond {
+			stalledAt = time.Since(t0)
+			break
+		}
+	}
+	time.Sleep(3600 * time.Millisecond)
+	// read again
+	got, bad := 0, ""
+	buf := make([]byte, 65536)
+	var acc []byte
+	t.conn.SetReadDeadline(time.Now().Add(20 * time.Second))
+	for got < n && bad == "" {
+		k, err := t.conn.Read(buf)
+		if err != nil {
+			bad = fmt.Sprintf("read after %d replies: %v", got, err)
+			break
+		}
+		acc = append(acc, buf[:k]...)
+		for bad == "" {
+			i := bytes.IndexByte(acc, 0x7e)
+			if i < 0 {
+				break
+			}
+			j := bytes.IndexByte(acc[i+1:], 0x7e)
+			if j < 0 {
+				break
+			}
+			fr := acc[i : i+j+2]
+			dv, _ := decodeView(fr)
+			if !dv.Ok || dv.ID != 0x8001 || dv.Serial != got%65536 || len(dv.Body) != 5 || int(dv.Body[0])<<8|int(dv.Body[1]) != got%65536 || dv.Body[2] != 0 || dv.Body[3] != 2 {
+				bad = fmt.Sprintf("reply %d is %x", got, fr)
+			}
+			got++
+			acc = acc[i+j+2:]
+		}
+	}
+	select {
+	case <-wrote:
+	case <-time.After(5 * time.Second):
+	}
+	l.rec.log(t.idx, "D", "assert", "ok", bad == "" && got == n, "what", "RepliesLostOrCutWhileTheTerminalWasNotReading", "got", got, "detail", bad, "stalled_ms", int(stalledAt/time.Millisecond))
+	t.conn.Close()
+}
+
 // halfFrameConnections: a few connections that end in the middle of a frame (whatever a connection leaves behind is its own)
 func halfFrameConnections(l *live, n int) {
 	for k := 0; k < n; k++ {
@@ -407,6 +564,7 @@ func init() {
 		l := startLive(liveOpts{traceTo: a[0]})
 		phone := []byte{0x01, 0x0a, 0x0d, 0x00, 0x20, 0x09} // the phone field itself holds LF, CR, NUL, space, TAB (BCD digits 010a0d002009)
 		halfFrameConnections(l, 40)
+		slowWriterBurst(l, 3)
 		t := l.dial(phone, 0)
 		t.serial = 0x0a0c // serials 0x0a0d.. : CR / LF inside the header as well
 		bodies := [][]byte{
